@@ -37,6 +37,9 @@ def _cases(tier):
     for name, prog, inputs, extra in c15._cases("quick"):
         if extra.get("method") == "map" or name.startswith("mapnode") or name.startswith("run-of"):
             yield ("map:" + name, prog, inputs, extra)
+            if "_fault" not in extra and name not in ("map1",):
+                # the bounded worker pool of map / the shared limiter (a different code path from the unlimited gather)
+                yield ("map:" + name + "-k2", prog, inputs, {**extra, "max_concurrency": 2})
 
 
 def shards(tier, seed):
